@@ -3,7 +3,7 @@
    followed by Print Assumptions.  The model [merge] (M_Merge) is tied to profile.Merge of /repo's
    current tree by the correspondence check on full result dumps (R_C03). *)
 From Coq Require Import List ZArith String Bool Permutation.
-From PV Require Import M_Merge S_Merge L_Assoc L_Merge L_SampleKey L_Compact M_MergeMemo L_MergeMemo.
+From PV Require Import M_Merge S_Merge L_Assoc L_Merge L_SampleKey L_LocKey L_Compact M_MergeMemo L_MergeMemo.
 Import ListNotations.
 Open Scope Z_scope.
 
@@ -136,6 +136,14 @@ Print Assumptions sample_key_injective.
 Theorem merge_memo_equiv : forall ps, merge_m ps = merge ps.
 Proof. exact merge_memo_equiv_lemma. Qed.
 Print Assumptions merge_memo_equiv.
+
+(* -- likewise for locationKey.lines: the string of hex numbers joined by "|" (three slots per
+   inline line; compared with the real Location.key on every run) determines the slots, for uint64
+   function ids and int64 line / column numbers -- *)
+Theorem location_key_lines_injective : forall a b,
+  Forall slot_ok a -> Forall slot_ok b -> lines_key a = lines_key b -> a = b.
+Proof. exact lines_key_injective_lemma. Qed.
+Print Assumptions location_key_lines_injective.
 
 (* -- non-vacuity -- *)
 Definition ex_vt := {| vt_type := "samples"; vt_unit := "count" |}.
